@@ -1,163 +1,11 @@
 import Influx.Proto
+import Influx.Model.FieldProto
 import Influx.Model.FieldSchema
 import Influx.Spec.C40
 
-open Influx Influx.Proto Influx.Fields
+open Influx Influx.Proto Influx.Fields Influx.Fields.Tok
 
 namespace Influx.Drv.C40
-
-/-! ## tokens → typed values (shared with Drv.C10) -/
-
-def validName (s : String) : Bool :=
-  !s.isEmpty && s.toList.all (fun c => c.isAlphanum || c == '_') && s.toList.all (fun c => c.toNat < 128)
-
-def parseNatCanon (s : String) : Option Nat :=
-  match s.toNat? with
-  | some n => if toString n == s then some n else none
-  | none => none
-
-def parseIntCanon (s : String) : Option Int :=
-  match s.toInt? with
-  | some n => if toString n == s then some n else none
-  | none => none
-
-def parseFType : String → Option FType
-  | "f" => some .float | "i" => some .int | "u" => some .uint | "b" => some .bool | "s" => some .str
-  | _ => none
-
-def ftypeStr : FType → String
-  | .float => "f" | .int => "i" | .uint => "u" | .bool => "b" | .str => "s"
-
-def lowerHex (s : String) : Bool := s.toList.all (fun c => c.isDigit || ('a' ≤ c && c ≤ 'f'))
-
-/-- value token of type `t` → `slen` (0 unless string), `none` if not canonical -/
-def parseVal (t : FType) (v : String) : Option Nat :=
-  match t with
-  | .float =>
-    match hex64 v with
-    | some n => if lowerHex v && (n / 2 ^ 52) % 2048 != 2047 then some 0 else none
-    | none => none
-  | .int =>
-    match parseIntCanon v with
-    | some n => if -(2 ^ 63 : Int) ≤ n && n < 2 ^ 63 then some 0 else none
-    | none => none
-  | .uint =>
-    match parseNatCanon v with
-    | some n => if n < 2 ^ 64 then some 0 else none
-    | none => none
-  | .bool => if v == "0" || v == "1" then some 0 else none
-  | .str =>
-    match v.splitOn "x" with
-    | [c, n] =>
-      match parseNatCanon c, parseNatCanon n with
-      | some c, some n => if c < 26 && (n > 0 || c == 0) && n ≤ 4000000 then some n else none
-      | _, _ => none
-    | _ => none
-
-def parseField (s : String) : Option FieldV :=
-  match s.splitOn ":" with
-  | [name, t, v] =>
-    if !validName name then none else
-    match parseFType t with
-    | some ty => (parseVal ty v).map fun n => ⟨name, ty, v, n⟩
-    | none => none
-  | _ => none
-
-def strictAsc : List String → Bool
-  | a :: b :: rest => a < b && strictAsc (b :: rest)
-  | _ => true
-
-def parseTags (s : String) : Option (List (String × String)) :=
-  if s == "-" then some [] else
-  let r := (s.splitOn ";").mapM fun kv =>
-    match kv.splitOn "=" with
-    | [k, v] => if validName k && validName v then some (k, v) else none
-    | _ => none
-  match r with
-  | some l => if strictAsc (l.map (·.1)) then some l else none
-  | none => none
-
-def tsLimit : Int := 2 ^ 60
-
-def parsePoint (tok : String) : Option Point :=
-  match tok.splitOn "|" with
-  | [m, tg, fs, ts] =>
-    if !validName m then none else
-    match parseTags tg, (fs.splitOn ";").mapM parseField, parseIntCanon ts with
-    | some tags, some fields, some t =>
-      if strictAsc (fields.map (·.name)) && !fields.isEmpty && -tsLimit < t && t < tsLimit
-      then some ⟨m, tags, fields, t⟩ else none
-    | _, _, _ => none
-  | _ => none
-
-/-! ## rendering -/
-
-def tagsStr (t : List (String × String)) : String :=
-  if t.isEmpty then "-" else ";".intercalate (t.map fun kv => kv.1 ++ "=" ++ kv.2)
-
-def entryStr (e : EKey × Val) : String :=
-  e.1.1 ++ "|" ++ tagsStr e.1.2.1 ++ "|" ++ e.1.2.2.1 ++ "|" ++ toString e.1.2.2.2 ++ "|" ++ ftypeStr e.2.1 ++ ":" ++ e.2.2
-
-def sortStrs (l : List String) : List String := l.mergeSort (fun a b => !(b < a))
-
-def storeStr (d : Store) : String := joinComma (sortStrs (d.map entryStr))
-
-def schemaStr (s : Schema) : String :=
-  joinComma (sortStrs (s.map fun e => e.1.1 ++ "." ++ e.1.2 ++ ":" ++ ftypeStr e.2))
-
-def rawKeyStr (k : RawKey) : String :=
-  k.1.1 ++ "|" ++ tagsStr k.1.2.1 ++ "#" ++ k.1.2.2 ++ ":" ++ ftypeStr k.2
-
-def rawKeysStr (ks : List RawKey) : String := joinComma (sortStrs (ks.map rawKeyStr))
-
-def reasonStr : Reason → String
-  | .tagTime => "tag-time" | .fieldTime => "field-time" | .tooLong => "too-long"
-  | .conflict => "conflict" | .stripped => "time-stripped"
-
-def parseReason : String → Option Reason
-  | "tag-time" => some .tagTime | "field-time" => some .fieldTime | "too-long" => some .tooLong
-  | "conflict" => some .conflict | "time-stripped" => some .stripped
-  | _ => none
-
-def resStr : WriteRes → String
-  | .ok => "ok"
-  | .partialWrite n r => s!"partial {n} {reasonStr r}"
-  | .hardError e => "err:" ++ e
-
-/-! ## answers → typed observations -/
-
-def parseEntry (s : String) : Option (EKey × Val) :=
-  match s.splitOn "|" with
-  | [m, tg, f, ts, tv] =>
-    match parseTags tg, parseIntCanon ts, tv.splitOn ":" with
-    | some tags, some t, [ty, v] =>
-      (parseFType ty).map fun ty => ((m, tags, f, t), (ty, v))
-    | _, _, _ => none
-  | _ => none
-
-def parseStore (s : String) : Option Store := (splitComma s).mapM parseEntry
-
-def parseRawKey (s : String) : Option RawKey :=
-  match s.splitOn "#" with
-  | [sk, ft] =>
-    match sk.splitOn "|", ft.splitOn ":" with
-    | [m, tg], [f, ty] =>
-      match parseTags tg, parseFType ty with
-      | some tags, some ty => some ((m, tags, f), ty)
-      | _, _ => none
-    | _, _ => none
-  | _ => none
-
-def parseRes : List String → Option WriteRes
-  | ["ok"] => some .ok
-  | ["partial", n, k] =>
-    match parseNatCanon n, parseReason k with
-    | some n, some r => some (.partialWrite n r)
-    | some n, none => some (.partialWrite n .conflict)   -- unknown reason text: the count is what C40 states
-    | _, _ => none
-  | [e] => if e.startsWith "err:" || e == "timeout" || e == "skipped" || e == "crash" || e.startsWith "panic"
-           then some (.hardError ((e.replace "err:" "").replace " " "_")) else none
-  | _ => none
 
 /-! ## the driver -/
 
@@ -194,6 +42,9 @@ def observe (toks : List String) (ans : String) : Option (Option WStep) :=
       match parseRes rres.reverse, parseStore ents with
       | some res, some d => some (some (.write b res d))
       | some (.hardError e), none => some (some (.write b (.hardError e) []))
+      | some _, none =>
+        if ents.startsWith "err:" || ents.startsWith "panic" then some (some (.write b (.hardError ("read-failed-" ++ ents.replace "err:" "")) []))
+        else none
       | _, _ => if rres.isEmpty then (parseRes [ents]).map fun r => some (.write b r []) else none
     | [] => none
   | some .read => (parseStore ans).map fun d => some (.read d)
@@ -215,9 +66,11 @@ def writeTags (B : Store) : WStep → List String
   | _ => []
 
 def oracle (obs : List (List String × String)) : Verdict :=
-  let parsed := obs.map fun (toks, ans) => observe toks ans
-  if parsed.any Option.isNone then Verdict.fail "bad-line:" else
-  let steps := parsed.filterMap fun o => o.join
+  let parsed := obs.map fun (toks, ans) => (observe toks ans, ans)
+  match parsed.find? (fun p => p.1.isNone) with
+  | some (_, ans) => Verdict.fail ("unreadable-answer:" ++ ((ans.take 40).replace " " "_"))
+  | none =>
+  let steps := parsed.filterMap fun o => o.1.join
   -- tags (evidence only): walk the writes with the observed store before each
   let tg := (steps.foldl (fun (acc : Store × List String) s =>
       let t := writeTags acc.1 s
